@@ -110,6 +110,13 @@ func (g *DependencyGraph) AddProvider(provider Provider) error {
 		}
 		g.nodes[nodeKey] = node
 	}
+
+	// Remember what is replaced, so that a rejected add can leave the graph exactly as it was
+	previousProvider := node.Provider
+	previousDependencies := node.Dependencies
+	previousEdges, hadEdges := g.edges[nodeKey]
+	var placeholders []NodeKey
+
 	node.Provider = provider
 
 	// Clear existing edges for this node (in case of replacement)
@@ -133,6 +140,7 @@ func (g *DependencyGraph) AddProvider(provider Provider) error {
 				Dependencies: make([]NodeKey, 0),
 				Dependents:   make([]NodeKey, 0),
 			}
+			placeholders = append(placeholders, depKey)
 		}
 	}
 
@@ -148,9 +156,22 @@ func (g *DependencyGraph) AddProvider(provider Provider) error {
 
 	// Check for cycles immediately
 	if err := g.detectCyclesFrom(nodeKey); err != nil {
-		// Remove the node if it creates a cycle
-		delete(g.nodes, nodeKey)
-		delete(g.edges, nodeKey)
+		// Undo the add: drop what it created and restore what it replaced
+		for _, placeholder := range placeholders {
+			delete(g.nodes, placeholder)
+		}
+		if exists {
+			node.Provider = previousProvider
+			node.Dependencies = previousDependencies
+			if hadEdges {
+				g.edges[nodeKey] = previousEdges
+			} else {
+				delete(g.edges, nodeKey)
+			}
+		} else {
+			delete(g.nodes, nodeKey)
+			delete(g.edges, nodeKey)
+		}
 		g.updateDegrees()
 		return err
 	}
